@@ -51,6 +51,16 @@ chk("C13", "model_checking",
     "TLA+ transcription (PrefixLaws/AsnSet) model-checked by TLC; exhaustive spec->impl replay; impl->spec trace validation",
     "DESIGN.md §3 C13")
 
+chk("C12", "model_checking",
+    "TLC checks on the UriAlgebra specification (URIs as character sequences) that equality is an equivalence, parent-of is "
+    "irreflexive/transitive/a congruence, relative_to is empty exactly for URIs equal up to one trailing slash and otherwise "
+    "re-joins to the original, and join/parent results are well-formed with the same authority - for every string up to length 5/6 "
+    "over a 6-character alphabet and all pairs/triples of accepted URIs; every case is replayed into Rsync/Https (acceptance compared "
+    "one-directionally) under 3 scheme spellings and 2 alphabet renderings; random long URIs are validated by Trace_UriAlgebra.",
+    "Small alphabet {a,A,b,/,.,space} and its multi-character rendering represent the character classes; TLC/SANY.",
+    "TLA+ spec (UriAlgebra) model-checked by TLC; exhaustive spec->impl replay; impl->spec trace validation",
+    "DESIGN.md §3 C12")
+
 ALL = ["C%02d" % i for i in range(1, 18)]
 
 
